@@ -1,10 +1,10 @@
 package verifsim
 
 import (
-	"errors"
-	"io"
 	"context"
+	"errors"
 	"fmt"
+	"io"
 	"strconv"
 	"strings"
 	"time"
@@ -104,8 +104,14 @@ func scnC05(rc *RunCtx) {
 		pp := &Pipeline{rc: rc}
 		rc.Sim.Spawn("world.sshd", func() {
 			w := pipe.OpenWriter()
-			for _, c := range pp.chunks(line) {
+			pauses := 0
+			for i, c := range pp.chunks(line) {
 				simrt.Point("world.chunk")
+				if i > 0 && pauses < 3 && rc.Sim.Tape.ChooseBiased(4, "chunk.pause") == 1 {
+					// the rest of the record arrives up to 2.5 simulated seconds later
+					pauses++
+					simrt.Sleep(time.Duration(100+rc.Sim.Tape.Choose(2400, "chunk.pause.ms"))*time.Millisecond, "world.chunk.pause")
+				}
 				w.Write(c)
 			}
 			w.Close()
@@ -154,7 +160,11 @@ func scnC05(rc *RunCtx) {
 		return false
 	}
 	runFor := func(stop func() bool) {
-		for i := 0; i < 10+delayMs/100; i++ {
+		extra := 0
+		if fault == "none-via-pipe" {
+			extra = 90 // the writer may pause up to three times 2.5 simulated seconds
+		}
+		for i := 0; i < 10+delayMs/100+extra; i++ {
 			if why := rc.Sim.RunUntil(stop, 50000); why != "idle" {
 				return
 			}
@@ -214,8 +224,8 @@ func scnC05(rc *RunCtx) {
 			return
 		}
 	}
-	// the UserLogin event
-	if fault != "cancel-before-call" || len(rec.Events) > 0 {
+	// the UserLogin event: written first, whatever becomes of the hand-off
+	{
 		if len(rec.Events) != 1 {
 			rc.Fail("C05", "event-count", "accepted %s line wrote %d events, expected exactly one succeeded UserLogin", form, len(rec.Events))
 			return
